@@ -25,7 +25,8 @@ deriving DecidableEq, Repr
 DEFAULTS = dict(initialMmapSize=0, intFmt='', twoDoublesFmt='', intWidth=0, twoDoublesWidth=0,
                 readerExpr='(0 : Int)', writerExpr='(0 : Int)', padByte=0, scanStart=0, lenFieldSkip=0, valueSkip=0, headerPos=0,
                 freshUsed=0, growFactor=0, positionBack=0, growKind='absent', ctorEffects=[], initValueEffects=[],
-                growBody=[], writeValueEffects=[], packIntegerSlice=0, packTwoDoublesSlice=0, readerUsesHeaderBound=False)
+                growBody=[], writeValueEffects=[], packIntegerSlice=0, packTwoDoublesSlice=0, readerUsesHeaderBound=False,
+                shortFileGuard=None)
 
 
 class IntExpr:
@@ -146,6 +147,8 @@ def _emit(ok, v, why=''):
     out += '/-- the number of pad bytes `_init_value` appends, as a function of `len(encoded)` -/\n'
     out += 'def padCountWriter (e : Nat) : Nat := (%s).toNat\n' % v['writerExpr']
     out += 'def readerUsesHeaderBound : Bool := %s\n' % ('true' if v['readerUsesHeaderBound'] else 'false')
+    out += '/-- `if len(data) < N: return iter(())` before the header is unpacked in `read_all_values_from_file` (none = no such guard) -/\n'
+    out += 'def shortFileGuard : Option Nat := %s\n' % ('none' if v['shortFileGuard'] is None else 'some %d' % v['shortFileGuard'])
     out += 'def growKind : GrowKind := .%s\n' % v['growKind']
     for k in ('ctorEffects', 'initValueEffects', 'growBody', 'writeValueEffects'):
         out += 'def %s : List Eff := [%s]\n' % (k, ', '.join('.' + t for t in v[k]))
@@ -186,6 +189,36 @@ def generate(repo):
         v['valueSkip'] = int_const(incs[2].value)
         pl = find_assign(loops[0], 'padded_len')
         v['readerExpr'] = IntExpr(lambda n: isinstance(n, ast.Name) and n.id == 'encoded_len').tr(pl)
+
+        # ---- file reader: read_all_values_from_file (first read, optional short-file guard, header, second read, scan)
+        ff = find_func(tree, 'read_all_values_from_file', 'MmapedDict')
+        withs = [n for n in ff.body if isinstance(n, ast.With)]
+        if len(withs) != 1: raise Fail('read_all_values_from_file: one `with open(...)` block expected')
+        wb = withs[0].body
+        def is_first_read(st): return ast.unparse(st) == 'data = infp.read(mmap.PAGESIZE)'
+        def is_header(st): return ast.unparse(st) == 'used = _unpack_integer(data, 0)[0]'
+        def is_rest(st):
+            return (isinstance(st, ast.If) and ast.unparse(st.test) == 'used > len(data)' and len(st.body) == 1
+                    and ast.unparse(st.body[0]) == 'data += infp.read(used - len(data))' and not st.orelse)
+        def guard_of(st):
+            if not (isinstance(st, ast.If) and not st.orelse and isinstance(st.test, ast.Compare) and len(st.test.ops) == 1
+                    and isinstance(st.test.ops[0], ast.Lt) and ast.unparse(st.test.left) == 'len(data)'):
+                return None
+            body = [b for b in st.body if not (isinstance(b, ast.Expr) and isinstance(b.value, ast.Constant))]
+            if len(body) != 1 or not isinstance(body[0], ast.Return) or ast.unparse(body[0].value) not in ('iter(())', 'iter([])', '[]', '()'):
+                raise Fail('short-file guard does not return an empty result: %s' % ast.unparse(st))
+            return int_const(st.test.comparators[0])
+        kinds = []
+        for st in wb:
+            if is_first_read(st): kinds.append('read')
+            elif is_header(st): kinds.append('header')
+            elif is_rest(st): kinds.append('rest')
+            elif guard_of(st) is not None:
+                kinds.append('guard'); v['shortFileGuard'] = guard_of(st)
+            else: raise Fail('read_all_values_from_file: statement not understood: %s' % ast.unparse(st)[:80])
+        if kinds == ['read', 'header', 'rest']: v['shortFileGuard'] = None
+        elif kinds != ['read', 'guard', 'header', 'rest']: raise Fail('read_all_values_from_file: statement order %s' % kinds)
+        if ast.unparse(ff.body[-1]) != 'return _read_all_values(data, used)': raise Fail('read_all_values_from_file: final return changed')
 
         # ---- writer: _init_value
         iv = find_func(tree, '_init_value', 'MmapedDict')
